@@ -288,6 +288,7 @@ func (c *container) sendLoop() {
 				c.socketError(err)
 				return
 			}
+			verifTraceCmd("h>", &cmd.Cmd)
 		}
 	}
 }
@@ -300,6 +301,7 @@ func (c *container) recvLoop() {
 			c.socketError(err)
 			return
 		}
+		verifTraceReply("h<", &reply)
 		c.recvCh <- recvReply{
 			Reply: reply,
 			Msg:   msg,
